@@ -26,6 +26,7 @@ import json
 import os
 import random
 import re
+import sys
 import time
 
 import common
@@ -420,10 +421,14 @@ def run_impl(case):
     c2['tasks'] = [{'name': s, 'targets': [], 'ignored': False} for s in an['names']]
     saved = (runlib.build_namespace, runlib._prepare_fs, runlib.argv_of)
     runlib.build_namespace, runlib._prepare_fs, runlib.argv_of = build_namespace, _prepare_fs, argv_of
+    real_out, real_err = sys.stdout, sys.stderr
     try:
         o = runlib.run_impl(c2, watchdog=10.0)
     finally:
         runlib.build_namespace, runlib._prepare_fs, runlib.argv_of = saved
+        # a run that raised while actions were in flight (thread runner) leaves worker threads inside the python-action's
+        # stdout swap; when the scheduler abandons them they "restore" the stream they saved.  Put the real ones back.
+        sys.stdout, sys.stderr = real_out, real_err
     ev, unknown = [], []
     for e in o.get('raw', []):
         k = e[0]
@@ -458,6 +463,10 @@ def run_impl(case):
         errc = 'duptarget'      # InvalidTask caught by Runner.run_all (reporter.runtime_error, exit 2)
     elif errc == 'duptarget' or rt:
         errc = 'invalid'
+    if errc == 'none' and o['exit'] == 3:
+        # an ERROR exit whose message could not be seen: the main thread printed it while a python-action running in a
+        # worker thread had sys.stderr swapped (open finding C17 stdout-overlap-threads).  Error class unknown.
+        errc = 'exit3'
     obs = {'events': ev, 'err': errc, 'exit': o['exit'], 'unknown': unknown, 'stderr': o.get('stderr', '')[-300:],
            'raw_err': err}
     if 'schedule' in o:
@@ -554,7 +563,8 @@ def gen_case(rng, runner=None, knobs=None):
         for c, cr in enumerate(creators):
             for p in placeholders(cr):
                 for d in make_tasks(cr, p):
-                    targets += d['targets']
+                    if cr['regex'] or rng.random() < 0.2:
+                        targets += d['targets']
                     if ':' in d['name']:
                         subs.append(d['name'])
             if not cr['creates']:
@@ -650,7 +660,10 @@ def _heads(witness):
 def sig_oddity(witness):
     """subtask-then-regex-target, and nothing but its known consequences failed (tasks outside the selection's closure
     executed / ordering judged against the creators' declared names / the KeyError)"""
-    return sig_subtask_then_regex(witness) and _heads(witness) <= {'target', 'obey', 'crash', 'utd'}
+    allowed = {'target', 'obey', 'crash', 'utd'}
+    if uncovered_creates(witness.get('case') or {}):
+        allowed = allowed | {'once'}        # both open findings in one input
+    return sig_subtask_then_regex(witness) and _heads(witness) <= allowed
 
 
 def uncovered_creates(case):
@@ -666,7 +679,10 @@ def sig_creates_not_yielded(witness):
     """open finding creates-not-yielded: a creator declares a name in `creates` that none of its yields defines, and the
     failing monitor is `once` (possibly with the duplicate-target abort / re-execution that follows from it)"""
     case = witness.get('case') or {}
-    return bool(uncovered_creates(case)) and 'once' in _heads(witness) and _heads(witness) <= {'once', 'obey', 'target'}
+    allowed = {'once', 'obey', 'target'}
+    if sig_subtask_then_regex(witness):
+        allowed = allowed | {'crash', 'utd'}
+    return bool(uncovered_creates(case)) and 'once' in _heads(witness) and _heads(witness) <= allowed
 
 
 SIGNATURES = {'subtask-then-regex-target': sig_oddity, 'creates-not-yielded': sig_creates_not_yielded}
